@@ -168,11 +168,26 @@ def gen_bad_selector(rng):
   return 'f.x = %' + scope + '/M'
 
 
+def gen_broken_name(rng):
+  """A backslash continuation inside a scoped name, the continuation line indented by a random amount - often by
+  exactly the amount that makes the name end in the column where it would have ended on one line."""
+  name = rng.choice(['s/target.a', 'a/b/m.f.x', 'train/eval_2/pkg.mod.Cls.lr', 's/helper', 'outer/inner/fn'])
+  seps = [i + 1 for i, ch in enumerate(name) if ch in '/.' and i + 1 < len(name)]
+  i = rng.choice(seps + [j - 1 for j in seps])     # break after or before a separator
+  place = rng.choice(['key', 'ref', 'mref'])
+  prefix = {'key': '', 'ref': 'f.x = @', 'mref': 'f.x = %'}[place]
+  begin = len(prefix)
+  k = begin + i if rng.random() < 0.6 else rng.randint(0, 14)
+  text = prefix + name[:i] + '\\\n' + ' ' * k + name[i:]
+  return text + (' = 1' if place == 'key' else '')
+
+
 def gen_cases(rng, tier, boost=1):
   n = (700 if tier == 'quick' else 30000) * boost
   for k in range(n):
     if k % 6 == 5:
-      bad = rng.choice(BAD_SELECTORS) if rng.random() < 0.5 else gen_bad_selector(rng)
+      r3 = rng.random()
+      bad = rng.choice(BAD_SELECTORS) if r3 < 0.4 else (gen_bad_selector(rng) if r3 < 0.75 else gen_broken_name(rng))
       prefix = 'ok.y = 2\n' if rng.random() < 0.5 else ''
       yield {'dom': 'parse', 'kind': 'bad', 'texts': [prefix + bad + '\n'], 'nprefix': 1 if prefix else 0}
     else:
